@@ -96,7 +96,7 @@ def extra_phase(tier, seed):
             lo = int(rng.integers(0, (1 << 16) - 2048)); jobs.append((4, lo, lo + 2048, symm, "asan"))
     with mp.get_context("fork").Pool(14) as pool:
         res = pool.map(_enum_job, jobs, chunksize=1)
-    out = {"violations": [], "evaluations": 0, "distinct_nontrivial": 0, "exhaustive_orders": [1, 2, 3] + ([4] if tier == "thorough" else []), "exhaustive": tier == "thorough"}
+    out = {"violations": [], "evaluations": 0, "distinct_nontrivial": 0, "exhaustive_orders": [1, 2, 3] + ([4] if tier == "thorough" else []), "enum_exhaustive": tier == "thorough"}
     for (text, v) in res:
         f = v.get("f", {})
         out["evaluations"] += int(f.get("enum_cases", 0)); out["distinct_nontrivial"] += int(f.get("enum_nontrivial", 0))
